@@ -290,7 +290,7 @@ pub fn seq_phases(prop: &str, tier: &str) -> Vec<Phase> {
                         },
                     },
                     periodic_phase(prop, vec![Cfg::records(2), Cfg::records(3)], o.clone(), thorough),
-                    scale_phase(prop, vec![Cfg::records(2), Cfg::records(300).with_cache(Some(2), None)], o.clone(), thorough),
+                    scale_phase(prop, vec![Cfg::records(2), Cfg::records(300)], o.clone(), thorough),
                     high_offset_phase(prop, o.clone(), thorough),
                 ]
             } else {
@@ -312,7 +312,7 @@ pub fn seq_phases(prop: &str, tier: &str) -> Vec<Phase> {
                         },
                     },
                     periodic_phase(prop, vec![Cfg::records(2), Cfg::records(3)], o.clone(), thorough),
-                    scale_phase(prop, vec![Cfg::records(2), Cfg::records(300).with_cache(Some(2), None)], o.clone(), thorough),
+                    scale_phase(prop, vec![Cfg::records(2), Cfg::records(300)], o.clone(), thorough),
                     high_offset_phase(prop, o.clone(), thorough),
                 ]
             }
